@@ -1,10 +1,10 @@
 #!/bin/bash
-# usage: confirm_seed.sh <Cxx> <n>   — developer tool. Confirms a seeded change produced by a sub-agent:
+# usage: confirm_seed.sh <Cxx> <n> [srcroot] [outN]   — developer tool. Confirms a seeded change produced by a sub-agent:
 # applies /tmp/seed/out/<Cxx>/<n>/patch.diff in a scratch worktree of /repo (under /tmp), builds, runs
 # the demonstration (must FAIL), runs the pinned suite (must match the baseline), reverts, runs the
 # demonstration again (must PASS). On success copies patch/demo/meta into /verif/seeded/<Cxx>-<n>/.
-ID=$1; N=$2
-SRC=/tmp/seed/out/$ID/$N
+ID=$1; N=$2; ROOT=${3:-/tmp/seed/out}; ON=${4:-$N}
+SRC=$ROOT/$ID/$N
 WT=/tmp/confirm.$ID.$N
 export GOFLAGS=-mod=mod GOPROXY=off
 LOG=/tmp/confirm.$ID.$N.log
@@ -32,7 +32,7 @@ cp "$DEMO" "$DIR/zz_seed_demo_test.go"
 go test -vet=off -count=1 -run "^($TESTS)\$" "./$DIR/" >/tmp/confirm.$ID.$N.without 2>&1; RC_WO=$?
 rm "$DIR/zz_seed_demo_test.go"
 [ $RC_WO -eq 0 ] || fail "demo fails WITHOUT the change"
-OUT=/verif/seeded/$ID-$N
+OUT=/verif/seeded/$ID-$ON
 mkdir -p "$OUT"
 cp "$SRC/patch.diff" "$OUT/patch.diff"; cp "$DEMO" "$OUT/demo_test.go"
 python3 - "$SRC/meta.json" "$OUT/meta.json" "$DIR" "$TESTS" <<'PY'
